@@ -42,5 +42,12 @@ def run_deductive(rep):
         canary = dict(c.extracted, ops=[c.extracted["ops"][1], c.extracted["ops"][0]])     # reordered replaces: must NOT be provable
         okm, _, _ = M.run_lean(canary)
         rep.add_canary("_merge_columns", "lean_instance_with_reordered_replaces", not okm, by="lean rejects the instance" if not okm else None)
+    else:
+        # the pipeline could not be extracted (it is no longer "escape each component, then join"): bounded native search for a collision on the real function
+        found = M.native_collision_search(3 if rep.tier == "thorough" else 2)
+        if found:
+            rep.add_obligation("_merge_columns.merged_key_injective(bounded native search, pipeline not extractable)", fn, "failed", "native", 0.0, "P")
+            rep.violation("C13:_merge_columns:collision", f"two different tuples {found['row_a']} and {found['row_b']} get the same merged key {found['merged_key']!r}",
+                          replay={"obligation": "_merge_columns.merged_key_injective", "native": found}, obligation="_merge_columns.merged_key_injective")
     for ep in dominance.ENTRY_POINTS:
         dominance.report(rep, *ep)
